@@ -305,6 +305,7 @@ pub fn run_property(id: &'static str) -> ! {
     use rayon::prelude::*;
     let mut cases: Vec<crate::illtyped::Ill> = crate::illtyped::conformance();
     cases.extend(crate::illtyped::visibility());
+    cases.extend(crate::illtyped::scope_escape());
     for a in crate::illtyped::arity() {
       cases.push(crate::illtyped::Ill { kind: "call-shape", what: a.what, modules: vec![("Main".into(), a.text)], target: "Main".into() });
     }
